@@ -28,6 +28,15 @@ def run_spec(spec, cap=20000, wall=30, fault=None, sim_class=None):
     try:
         signal.alarm(wall)
         N, skw = gen.build(spec, logs, fault=fault)
+        if spec.get('reuse_network'):
+            # the Network object has already served another (short, unmonitored) Simulation: the monitored one must be as sound
+            ciw.seed(spec['seed'] + 1)
+            W = mon.EventCapSim(N, **gen.sim_kwargs(spec))
+            try:
+                W.simulate_until_max_time(min(spec['run'].get('T') or 5.0, 5.0))
+            except mon.EventCap:
+                pass
+            logs.slog.clear(); logs.rlog.clear(); logs.blog.clear()
         ciw.seed(spec['seed'])
         Q = (sim_class or mon.MonSim)(N, **skw)
         Q.attach(tr, cap=cap, tie_policy=spec.get('tie', 'native'), tie_seed=spec['seed'], tie_script=spec.get('tie_script'))
